@@ -67,3 +67,69 @@ Proof. split; reflexivity. Qed.
 
 Lemma cert_new_accepts_expired : cert_new_rejects_expired = false.
 Proof. reflexivity. Qed.
+
+(* ---- parsers (C06, C07, C15, C16) ---- *)
+Lemma socks_constants :
+  socks_socks5_version = 5 /\ socks_auth_no_authentication = 0 /\ socks_auth_not_acceptable = 255 /\
+  socks_cmd_connect = 1 /\ socks_atyp_ipv4 = 1 /\ socks_atyp_domain = 3 /\ socks_atyp_ipv6 = 4 /\
+  socks_reply_succeeded = 0 /\ socks_reply_general_failure = 1 /\ socks_reply_command_not_supported = 7.
+Proof. repeat split; reflexivity. Qed.
+
+Lemma udp_max_both_u16 : udp_max_client = 65535 /\ udp_max_server = 65535.
+Proof. split; reflexivity. Qed.
+
+Lemma udp_datagram_fits_frame : 2 + 65507 <= encode_max_payload.
+Proof. vm_compute. discriminate. Qed.
+
+Lemma dns_ttl_positive : (0 < dns_ttl_ms)%Z.
+Proof. reflexivity. Qed.
+
+Lemma udp_magic_addr_contains_infix :
+  udp_magic_addr = [115; 112; 46; 118; 50; 46] ++ udp_magic_infix.
+Proof. reflexivity. Qed.
+
+(* ---- timed package (C12, C13, C14): shape of the pool, the client glue and the liveness rule ---- *)
+Lemma pool_shape :
+  pool_get_takes_last = true /\ pool_get_skips_closed = true /\ pool_add_skips_closed = true /\
+  pool_reap_unexpired_cmp = [0; 0] /\ pool_reap_min_cmp = [0; 0] /\
+  pool_reap_purges_closed = 2 /\ pool_reap_ascending = true.
+Proof. repeat split; reflexivity. Qed.
+
+(* a new session enters the idle map at creation; a reused one is not put back (root of F2 / F3) *)
+Lemma client_glue_shape :
+  client_adds_new_session_to_idle = true /\ client_reinserts_on_reuse = false /\
+  hb_cfg_is_pool_interval_timeout = true.
+Proof. repeat split; reflexivity. Qed.
+
+(* deadline per outstanding request: `sent.elapsed() >= timeout`, cleared by `responses > seen`,
+   the counter is advanced by the HeartResponse arm only *)
+Lemma hb_rule_shape :
+  hb_rule_deadline_per_request = true /\ hb_expire_cmp = 3 /\ hb_answered_cmp = 2 /\
+  hb_response_arm_counts = true /\ hb_counter_updates = 1.
+Proof. repeat split; reflexivity. Qed.
+
+Lemma cli_positive_seconds :
+  cli_rejects_zero_seconds = true /\ cli_interval_timeout_via_parse_u64 = true.
+Proof. split; reflexivity. Qed.
+
+Lemma pool_defaults : pool_default_interval_ms = 30000%Z /\ pool_default_timeout_ms = 60000%Z /\ pool_default_min_idle = 1.
+Proof. repeat split; reflexivity. Qed.
+
+(* ---- http package (C17): limits of the header read loop, default ports, status codes of the proxy's own replies ---- *)
+Lemma http_header_limits :
+  http_max_header = 65536 /\ http_terminator = [13; 10; 13; 10] /\ http_read_chunk = 1024.
+Proof. repeat split; reflexivity. Qed.
+
+Lemma http_default_ports :
+  http_default_port_http = 80 /\ http_default_port_https = 443 /\ http_default_port_connect = 443.
+Proof. repeat split; reflexivity. Qed.
+
+Lemma http_reply_codes : http_reply_connect_ok = 200 /\ http_reply_open_failed = 502.
+Proof. split; reflexivity. Qed.
+
+(* ---- session package (C01, C02, C08, C10): stream ids start at 1 on both sides; the opener waits 30 s ---- *)
+Lemma session_first_ids : client_first_stream_id = 1 /\ server_first_stream_id = 1.
+Proof. split; reflexivity. Qed.
+
+Lemma session_synack_timeout : synack_timeout_ms = 30000%Z.
+Proof. reflexivity. Qed.
